@@ -30,11 +30,26 @@ OPTS = [dict(math_mode=mm, keep_comments=kc, strict_latex_spaces=sp, fill_text=f
 _cv = {}
 
 
-def conv(i):
+def conv(i, textctx=None):
     from pylatexenc.latex2text import LatexNodes2Text
-    if i not in _cv:
-        _cv[i] = LatexNodes2Text(**OPTS[i])
-    return _cv[i]
+    if (i, textctx) not in _cv:
+        kw = dict(OPTS[i])
+        if textctx == 'custom':
+            kw['latex_context'] = custom_textdb()
+        _cv[(i, textctx)] = LatexNodes2Text(**kw)
+    return _cv[(i, textctx)]
+
+
+def custom_textdb():
+    """the default text database with user declarations in front: \\emph{..} and the abstract / theorem
+    environments are declared as discarded"""
+    from pylatexenc.latex2text import get_default_latex_context_db, MacroTextSpec, EnvironmentTextSpec
+    db = get_default_latex_context_db()
+    db.add_context_category('verif-discard', prepend=True,
+                            macros=[MacroTextSpec('emph', discard=True)],
+                            environments=[EnvironmentTextSpec('abstract', discard=True),
+                                          EnvironmentTextSpec('theorem', discard=True)])
+    return db
 
 
 SHARDS = [
@@ -45,6 +60,10 @@ SHARDS = [
     dict(macros=['text', 'label'], envs=['abstract'], specials=[], argless=[], discard=['label']),
     # a macro and an environment of the same name in one document (plain-TeX style \equation ... next to \begin{equation})
     dict(macros=['emph'], envs=['equation', 'align'], specials=[], argless=['equation', 'align'], discard=[]),
+    dict(macros=['textbf'], envs=['alignat', 'flalign*'], specials=[], argless=[], discard=[]),
+    # user-declared discards (custom text database): a macro and two environments
+    dict(macros=['emph', 'textbf'], envs=['abstract'], specials=[], argless=[], discard=['emph', 'abstract'], textctx='custom'),
+    dict(macros=['textit'], envs=['theorem', 'abstract'], specials=[], argless=[], discard=['theorem', 'abstract'], textctx='custom'),
 ]
 FEATURES = ['group', 'math', 'display', 'comment', 'par', 'space', 'commenteof', 'argtoken']
 
@@ -76,10 +95,11 @@ def collect(tree, src):
                 nm = uncodes(n['name'])
                 formulas.append(dict(markers=ms, src=codes(src[n['delims'][0]:n['delims'][1]]),
                                      open=codes('\\begin{%s}' % nm), close=codes('\\end{%s}' % nm)))
-            if n['k'] == 'macro' and uncodes(n['name']) in disc:
+            if n['k'] in ('macro', 'env') and uncodes(n['name']) in disc:
                 ms = []
                 for a in n['args']:
                     markers(a, ms, 'd')
+                markers(n.get('body', []), ms, 'd')
                 discarded.extend(ms)
             for a in n.get('args', []):
                 walk(a, disc)
@@ -87,7 +107,12 @@ def collect(tree, src):
     return formulas, discarded, walk
 
 
-MATHENVS = ('equation', 'align')
+# every environment the documentation lists as a math environment (frozen list, parsecommon.DOC_MATH_ENVS) that the
+# databases know; 'split' only occurs inside another math environment, 'math'/'displaymath' are unknown to both databases
+from .parsecommon import DOC_MATH_ENVS
+MATHENVS = tuple(e for e in DOC_MATH_ENVS if e not in ('split', 'math', 'displaymath'))
+# documents written with {equation} are also converted with the name replaced by each other argument-less math environment
+RENAME_EQUATION = [e for e in MATHENVS if e not in ('equation', 'alignat', 'alignat*')]
 
 
 class FilterConsumer(Consumer):
@@ -121,18 +146,27 @@ class FilterConsumer(Consumer):
                 cm(n.get('body', []))
         cm(rec['tree'])
         argphase = [c for c in comments if c not in intree]
-        for k in range(4):
-            i = (self.n * 7 + k * 13) % len(OPTS)
-            o = OPTS[i]
-            st, val = guarded(conv(i).latex_to_text, src, tolerant_parsing=False)
-            case = dict(src=src, options=o)
-            self.counters['renders'] += 1
-            if st != 'ok':
-                self.violation('outcome', case, detail=dict(status=st, exc=repr(val)), sig=dict(clause='outcome', exc=type(val).__name__))
-                continue
-            self.traces.append((case, dict(out=codes(val), keep_comments=o['keep_comments'], math_mode=o['math_mode'],
-                                           comments=comments, formulas=formulas, discarded=discarded,
-                                           argphase=argphase)))
+        variants = [(src, formulas)]
+        if '{equation}' in src:
+            # instantiated replay: the same document with another math environment of the same signature
+            e = RENAME_EQUATION[self.n % len(RENAME_EQUATION)]
+            ren = lambda x: x.replace('{equation}', '{%s}' % e)
+            variants.append((ren(src), [dict(f, src=codes(ren(uncodes(f['src']))), open=codes(ren(uncodes(f['open']))),
+                                             close=codes(ren(uncodes(f['close'])))) for f in formulas]))
+            self.counters['renamed'] += 1
+        for vsrc, vformulas in variants:
+            for k in range(4):
+                i = (self.n * 7 + k * 13) % len(OPTS)
+                o = OPTS[i]
+                st, val = guarded(conv(i, self.payload.get('textctx')).latex_to_text, vsrc, tolerant_parsing=False)
+                case = dict(src=vsrc, options=o, textctx=self.payload.get('textctx'))
+                self.counters['renders'] += 1
+                if st != 'ok':
+                    self.violation('outcome', case, detail=dict(status=st, exc=repr(val)), sig=dict(clause='outcome', exc=type(val).__name__))
+                    continue
+                self.traces.append((case, dict(out=codes(val), keep_comments=o['keep_comments'], math_mode=o['math_mode'],
+                                               comments=comments, formulas=vformulas, discarded=discarded,
+                                               argphase=argphase)))
 
     def result(self):
         r = super().result()
@@ -152,7 +186,7 @@ def run(ctx):
     d = contexts.describe('default')
     for sh in SHARDS:
         for j in docwriter.jobs('default', [sh], n, FEATURES, False, True):
-            j['payload'] = dict(ctx='default', discard=sh['discard'])
+            j['payload'] = dict(ctx='default', discard=sh['discard'], textctx=sh.get('textctx'))
             jobs.append(j)
     m = common.run_shards(ctx, ('harness.c12', 'FilterConsumer'), jobs, what='DocCheck default (marked documents), <= %d actions' % n)
     ctx.add_merged(m, validated=False)
@@ -179,6 +213,9 @@ def run(ctx):
 def replay(case):
     from pylatexenc.latex2text import LatexNodes2Text
     c = case['case']
-    st, val = guarded(LatexNodes2Text(**c['options']).latex_to_text, c['src'], tolerant_parsing=False)
+    kw = dict(c['options'])
+    if c.get('textctx') == 'custom':
+        kw['latex_context'] = custom_textdb()
+    st, val = guarded(LatexNodes2Text(**kw).latex_to_text, c['src'], tolerant_parsing=False)
     print(repr(c['src']), c['options'], '->', st, repr(val))
     return st == 'ok' and val != c.get('out')
